@@ -57,6 +57,12 @@ pub struct Timing {
     /// the byte slot directly after the last byte of its previous response is not seen
     #[serde(default)]
     pub nrc_gap: bool,
+    /// a data block of a multi-block write that would land behind the last block is answered
+    /// "data accepted" like any other (the data response token reports the CRC and a programming
+    /// error, nothing else); nothing is stored, and OUT_OF_RANGE - an error "detected during
+    /// execution" - shows in the card status only
+    #[serde(default)]
+    pub oor_status_only: bool,
 }
 
 #[derive(Clone, Debug, Serialize, Deserialize, PartialEq)]
@@ -690,6 +696,8 @@ impl CardInner {
                 b.copy_from_slice(&payload);
                 let a = self.write_addr;
                 self.mem.insert(a, Box::new(b));
+            } else if self.timing.oor_status_only && multi {
+                self.sticky |= 0x80;
             } else {
                 code = 0x0D;
             }
